@@ -11,7 +11,7 @@ AllTrue == [uu \in URLS |-> TRUE]
 IncChain == [A |-> <<"B">>, B |-> <<"C">>, C |-> <<>>, D |-> <<>>]
 IncDiamond == [A |-> <<"B", "C">>, B |-> <<"D">>, C |-> <<"D">>, D |-> <<>>]
 G == IOEnv.GRAPH
-cInc == IF G \in {"chain", "missingleaf", "badleaf", "binaryleaf"} THEN IncChain ELSE IncDiamond
+cInc == IF G \in {"chain", "missingleaf", "badleaf", "binaryleaf", "headeronly"} THEN IncChain ELSE IncDiamond
 cFetch == IF G \in {"missingleaf", "binaryleaf"} THEN [AllTrue EXCEPT !["C"] = FALSE] ELSE AllTrue
 cParse == IF G = "badleaf" THEN [AllTrue EXCEPT !["C"] = FALSE] ELSE AllTrue
 \* caller programs
@@ -21,6 +21,7 @@ cProg == CASE P = "dA_lA" -> << <<"deferred", "A">>, <<"load", "A">> >>
            [] P = "dA_dB_lA_lA" -> << <<"deferred", "A">>, <<"deferred", "B">>, <<"load", "A">>, <<"load", "A">> >>
            [] P = "dD_dB_lD_lD" -> << <<"deferred", "D">>, <<"deferred", "B">>, <<"load", "D">>, <<"load", "D">> >>
            [] P = "lA_lA" -> << <<"load", "A">>, <<"load", "A">> >>
+           [] P = "lD_dD_lD_lD" -> << <<"load", "D">>, <<"deferred", "D">>, <<"load", "D">>, <<"load", "D">> >>
            [] P = "lA_rA_lA" -> << <<"load", "A">>, <<"refresh", "A">>, <<"load", "A">> >>
            [] P = "dA_rA_lA_lA" -> << <<"deferred", "A">>, <<"refresh", "A">>, <<"load", "A">>, <<"load", "A">> >>
            [] P = "lC_rC_lC_lC" -> << <<"load", "C">>, <<"refresh", "C">>, <<"load", "C">>, <<"load", "C">> >>
